@@ -620,6 +620,13 @@ VariableManager::extract_array_indices(const ASTNode *node) {
         return indices;
     }
 
+    // The target copy of a compound assignment (a[f()] += v) takes the index
+    // values already evaluated for the assignment target.
+    if (const std::vector<int64_t> *reused =
+            interpreter_->reused_assign_target_indices(node)) {
+        return *reused;
+    }
+
     // 左側に更なる配列アクセスがあれば先に評価する。
     // m[i][j] は ARRAY_REF(ARRAY_REF(m, i), j) なので、左側（内側）の
     // インデックス式がソース上で先に現れる。左から右の順に評価する。
